@@ -32,7 +32,11 @@ def check_list(ctx, l, model, after):
     data = list(itertools.islice(iter(l), n + 2))
     ctx.need(data == [m.data for m in model], "DoublyLinkedList/%s/payloads-differ" % after,
              lambda: "payloads %r vs %r" % (data[:10], [m.data for m in model][:10]))
-    ln = len(l)
+    try:
+        ln = len(l)
+    except Exception as e:  # noqa
+        ctx.fail("DoublyLinkedList/%s/len-raises-%s" % (after, type(e).__name__), "len() raised %r after %s (the list holds %d elements)" % (e, after, n))
+        return
     ctx.need(ln == n, "DoublyLinkedList/%s/len-wrong" % after,
              lambda: "len()=%d but the list holds %d elements after %s" % (ln, n, after))
     if not model:
